@@ -27,6 +27,12 @@ class TransitError(Exception):
     pass
 
 
+def _hint_key(hint_obj):
+    # hint objects are namedtuples: a tor hint and a direct hint with the same
+    # fields compare (and hash) equal, so a set of them has to be told the type
+    return (type(hint_obj).__name__, hint_obj)
+
+
 class BadHandshake(Exception):
     pass
 
@@ -842,11 +848,12 @@ class Common:
             for hint_obj in rh.hints:
                 priority = hint_obj.priority
                 if priority not in prioritized_relays:
-                    prioritized_relays[priority] = set()
-                prioritized_relays[priority].add(hint_obj)
+                    prioritized_relays[priority] = {}
+                prioritized_relays[priority].setdefault(_hint_key(hint_obj),
+                                                        hint_obj)
 
         for priority in sorted(prioritized_relays, reverse=True):
-            for hint_obj in prioritized_relays[priority]:
+            for hint_obj in prioritized_relays[priority].values():
                 ep = endpoint_from_hint_obj(hint_obj, self._tor, self._reactor)
                 if not ep:
                     continue
